@@ -44,6 +44,10 @@ def do_call(E: Engine, node: ast.Call, st: State):
             return UF_MATH["arctan2"](to_real(E.ev(node.args[0], st)), to_real(E.ev(node.args[1], st)))
         if nm == "radians" and nm not in st.env:
             return to_real(E.ev(node.args[0], st)) * PI / 180
+        if nm in ("creal", "cimag") and nm not in st.env:
+            v = E.ev(node.args[0], st)
+            v = E.to_cplx(v)
+            return v.re if nm == "creal" else v.im
         if nm == "toreal":
             return to_real(E.ev(node.args[0], st))
         if nm == "toint":
@@ -83,6 +87,8 @@ def do_call(E: Engine, node: ast.Call, st: State):
             raise OutsideSubset("astype(%r)" % tn)
         if meth == "sum" and not node.args:
             return np_sum(E, arr, st)
+        if meth in METHOD_EXT:
+            return METHOD_EXT[meth](E, base, arr, node, st)
         raise OutsideSubset("array method ." + meth)
     # ---------------- builtins / numpy
     if isinstance(fv, NpV):
@@ -256,8 +262,14 @@ def alloc(E, st, shape, elem, fill):
     return Ref(rid)
 
 
+NP_EXT = {}        # "np.name" / "builtin.name" -> handler(E, node, st): extension point (see docs/CONTRACT_GUIDE.md)
+METHOD_EXT = {}    # array method name -> handler(E, base_value, arr, node, st)
+
+
 def np_call(E: Engine, path, node, st):
     args = node.args
+    if path in NP_EXT:
+        return NP_EXT[path](E, node, st)
     if path == "builtin.int":
         return trunc(E.ev(args[0], st))
     if path == "builtin.float":
@@ -522,3 +534,14 @@ def inline_call(E: Engine, key, mi, fn, node, st):
             raise OutsideSubset("inlined callee with several returns writes arrays")
     st.pc.append(z3.Or(conds))
     return val
+
+
+def _load_ext():
+    import importlib, pkgutil, os
+    root = os.path.join(os.path.dirname(os.path.abspath(__file__)), "ext")
+    if os.path.isdir(root):
+        for m in sorted(pkgutil.iter_modules([root])):
+            importlib.import_module("pyvc.ext." + m.name)
+
+
+_load_ext()
